@@ -33,7 +33,7 @@ type nameDef struct {
 }
 
 type Frame struct {
-	subst bool // see leafExpr
+	subst      bool // see leafExpr
 	g          *Gen
 	fn         *ssa.Function
 	sfx        string
